@@ -2,7 +2,7 @@
    A case: signatures, input heap, root, and what the implementation did: the order in which the
    Buildables' callables were invoked (as input ids) and the resulting object graph (encoded as an
    extension of the input heap), or the fact that it raised. *)
-From Fiddle Require Import PyBase PySlice Sig ArgStore PyCall Heap Traverse Build.
+From Fiddle Require Import PyBase PySlice Sig ArgStore PyCall Heap Traverse Build Build_proofs.
 
 Inductive observed :=
 | OBuilt (olog : list nat) (oheap : heap) (oroot : ref)
@@ -20,7 +20,7 @@ Definition bij_respects (n : nat) (m : bij) : bool :=
 Definition list_nat_eqb (a b : list nat) : bool := if list_eq_dec Nat.eq_dec a b then true else false.
 
 Definition check_case (c : case) : bool :=
-  wf_b (c_env c) (c_heap c) &&
+  wf_b (c_env c) (c_heap c) && keys_ok_b (c_heap c) &&   (* the hypotheses of the C02 theorems *)
   let '(s, res) := mrun (c_env c) (c_heap c) (build_node (c_env c) no_fail) (c_root c) in
   match res, c_obs c with
   | inl r, OBuilt olog oh oroot =>
